@@ -233,15 +233,21 @@ def run_check(prop, tier):
                 open_ids.add(e["id"])
                 w = os.path.join(VERIF, e["witness"])
                 rp = sh([exe, "-replay", w, "-model", os.path.join(OCAML, "xmodel")], cwd=scratch, env=GOENV, check=False)
-                if rp.returncode == 1:
+                if rp.returncode == 1 or (stats.get("known_findings") or {}).get(e["id"], 0) > 0:
                     known_printed.append("KNOWN-FINDING: property=%s %s" % (prop, e["what"]))
+            nfixed = 0
             for e in kf.get("fixed", []):
-                if e["property"] != prop or "witness" not in e:
-                    continue
-                w = os.path.join(VERIF, e["witness"])
-                rp = sh([exe, "-replay", w, "-model", os.path.join(OCAML, "xmodel")], cwd=scratch, env=GOENV, check=False)
-                if rp.returncode == 1:
-                    violations.append((w, "fixed finding has returned: " + e["what"]))
+                for wrel in e.get("witnesses", []):
+                    if not os.path.basename(wrel).startswith(prop + "-"):
+                        continue            # a witness is replayed by the check of the family that found it
+                    w = os.path.join(VERIF, wrel)
+                    rp = sh([exe, "-replay", w, "-model", os.path.join(OCAML, "xmodel")], cwd=scratch, env=GOENV, check=False)
+                    nfixed += 1
+                    if rp.returncode == 1:
+                        violations.append((w, "a repaired defect has returned (%s %s): %s" % (e["commit"], e["what"], rp.stdout[-400:])))
+                    elif rp.returncode != 0:
+                        broken.append(("corpus", "cannot replay %s: %s" % (w, rp.stdout[-300:])))
+            stats.setdefault("distribution", {})["corpus:fixed-finding-witnesses-replayed"] = nfixed
             for m in stats.get("mismatches") or []:
                 if m.get("known_finding") and m["known_finding"] in open_ids:
                     continue
@@ -337,7 +343,7 @@ def main():
             if exe is None:
                 print(log)
                 return 2
-            p = sh([exe, "-replay", sys.argv[2], "-model", os.path.join(OCAML, "xmodel")], cwd=scratch, env=GOENV, check=False)
+            p = sh([exe, "-replay", os.path.abspath(sys.argv[2]), "-model", os.path.join(OCAML, "xmodel")], cwd=scratch, env=GOENV, check=False)
             print(p.stdout)
             return p.returncode
         finally:
